@@ -93,6 +93,46 @@ def judge(ctx, sd, path, label, timeout):
         ctx.report = orig
 
 
+def judge_chunks(ctx, sd, path, label, timeout, nchunks):
+    """The recorded trace is cut at its table events into `nchunks` files of about equal size that TLC validates
+    concurrently; a chunk TLC rejects is judged again by `judge` (which reports, cuts the rejected segment out
+    and goes on)."""
+    events = core.read_ndjson(path)
+    groups, cur = [], []
+    for e in events:
+        if e["e"] == "table" and cur:
+            groups.append(cur)
+            cur = []
+        cur.append(e)
+    if cur:
+        groups.append(cur)
+    chunks = [[] for _ in range(nchunks)]
+    for g in sorted(groups, key=len, reverse=True):
+        min(chunks, key=len).extend(g)
+    chunks = [c for c in chunks if c]
+    paths = []
+    for i, c in enumerate(chunks):
+        p = "%s.c%d" % (path, i)
+        codec.write_events(p, c)
+        paths.append(p)
+    results = codec.parallel([(lambda p=p: codec.run_trace(ctx, sd, TRACE_MOD, TRACE_CFG, p, timeout=timeout)) for p in paths],
+                             max_workers=nchunks)
+    total_ok, drifts, f2 = 0, [], []
+    for p, c, r in zip(paths, chunks, results):
+        if r["accepted"]:
+            ctx.coverage["traces_validated_against_impl"] += 1
+            ctx.add_states(r["res"], "trace validation (%s): one state per consumed event" % label)
+            total_ok += len(c)
+            drifts += [w for (_, w) in r["drifts"]]
+            f2 += [(c[i - 1], h) for (i, h) in r["f2"]]
+        else:
+            ok_n, d, f = judge(ctx, sd, p, label, timeout)
+            total_ok += ok_n
+            drifts += d
+            f2 += f
+    return total_ok, drifts, f2
+
+
 def report_f2(ctx, f2):
     seen = set()
     for (ev, h) in f2:
@@ -121,21 +161,33 @@ def run(ctx):
                                         workers=3 if quick else 8, timeout=tmo)
         return ("doc", mm, res, summ, out, rc)
 
+    ftrace = os.path.join(ctx.workdir, "huffman-family-trace.ndjson")
+
+    def f_job():
+        # the systematic family of frequency vectors: model checked, every table built by the real from_frequencies
+        mm = os.path.join(ctx.workdir, "mismatch-huffman-family.ndjson")
+        cfg = "MC_HuffFreq_quick.cfg" if quick else "MC_HuffFreq_thorough.cfg"
+        res, summ, out, rc = codec.pipe(ctx, sd, "MC_HuffFreq.tla", cfg, [vh, "replay-freq", str(ctx.seed), "quick" if quick else "full", mm, ftrace],
+                                        "Huffman tables from the family of frequency vectors", workers=4 if quick else 8, timeout=tmo)
+        return ("freq", mm, res, summ, out, rc)
+
     def model_job(table):
         res = core.run_tlc("MC_Huffman.tla", "MC_Huffman_%s.cfg" % table, cwd=sd, workers=2, timeout=tmo,
                            env=codec.java_env(ctx), heap="3g")
         return (table, res)
 
     trace = os.path.join(ctx.workdir, "huffman-trace.ndjson")
-    cases, maxlen, tables = (12, 256, 16) if quick else (160, 4096, 64)
+    cases, maxlen, tables = (12, 256, 24) if quick else (160, 4096, 96)
 
     def b_job():
         return core.run_harness([vh, "drive", freqs, str(ctx.seed), str(cases), str(maxlen), str(tables), trace], timeout=600)
 
-    jobs = [a_job, b_job] + ([] if quick else [lambda: model_job("flat"), lambda: model_job("deep"), lambda: model_job("zeof")])
-    results = codec.parallel(jobs, max_workers=5)
+    jobs = [a_job, b_job, f_job] + ([] if quick else [lambda: model_job("flat"), lambda: model_job("deep"), lambda: model_job("zeof")])
+    results = codec.parallel(jobs, max_workers=6)
     (_, mm, res, summ, out, rc) = results[0]
     brc, bout = results[1]
+    (_, fmm, fres, fsumm, fout, frc) = results[2]
+    results = results[:2] + results[3:]
 
     evaluations, nontrivial = 0, 0
     linked = None
@@ -160,11 +212,42 @@ def run(ctx):
     elif rc == 0:
         raise core.ToolError("no summary from the harness")
 
+    # both recorded traces (under the family's tables, direction B) are validated concurrently
+    both = codec.parallel([
+        (lambda: judge_chunks(ctx, sd, ftrace, "recorded under the family's tables", tmo, 2 if quick else 6)
+         if (frc == 0 and codec.summary_of(fout)) else (0, [], [])),
+        (lambda: judge_chunks(ctx, sd, trace, "direction B", tmo, 4 if quick else 6)
+         if (brc == 0 and codec.summary_of(bout)) else (0, [], []))], max_workers=2)
+
+    # ---- the family of frequency vectors
+    codec.harness_failure(ctx, "C07", "replay of the frequency-vector family", frc, fout)
+    codec.check_model_run(ctx, fres, "Huffman tables from the family of frequency vectors")
+    if fsumm is not None:
+        if fsumm["tables"] == 0:
+            raise core.ToolError("TLC exported no frequency vector")
+        evaluations += fsumm["calls"]
+        nontrivial += fsumm["nontrivial"]
+        ctx.add_run("frequency-vector family: from_frequencies vs Huffman!Build, vectors replayed", tables=fsumm["tables"],
+                    tables_built=fsumm["tables_built"], tables_panicked_height_above_24=fsumm["tables_panicked"], heights=fsumm["heights"],
+                    families=fsumm["families"], vectors=fsumm["vectors"], calls=fsumm["calls"], mismatching_tables=fsumm["mismatch_cases"],
+                    recorded_events=fsumm["events"])
+        if fsumm["mismatch_cases"]:
+            ok_n, drifts, f2 = judge(ctx, sd, fmm, "direction A (frequency-vector family)", tmo)
+            for d in drifts:
+                ctx.report_drift("direction A (family): " + d)
+            report_f2(ctx, f2)
+        ok_n, drifts, f2 = both[0]
+        for d in drifts:
+            ctx.report_drift("family tables: " + d)
+        report_f2(ctx, f2)
+    elif frc == 0:
+        raise core.ToolError("no summary from the harness (family)")
+
     codec.harness_failure(ctx, "C07", "driver", brc, bout)
     bs = codec.summary_of(bout)
     if brc == 0 and bs:
         linked = bs.get("reference_linked") if linked is None else linked
-        ok_n, drifts, f2 = judge(ctx, sd, trace, "direction B", tmo)
+        ok_n, drifts, f2 = both[1]
         for d in drifts:
             ctx.report_drift("recorded trace: " + d)
         report_f2(ctx, f2)
@@ -173,7 +256,9 @@ def run(ctx):
                     max_input_len=maxlen, frequency_tables=bs["tables"], tables_panicked=bs["tables_panicked"],
                     tables_accepted_as_F2=len(f2), events_accepted=ok_n,
                     tables_eof_all_zero=bs.get("tables_eof_all_zero"), tables_eof_ends_in_one=bs.get("tables_eof_ends_in_one"),
-                    eof_len_min=bs.get("eof_len_min"), eof_len_max=bs.get("eof_len_max"))
+                    eof_len_min=bs.get("eof_len_min"), eof_len_max=bs.get("eof_len_max"),
+                    run_inputs=bs.get("run_inputs"), run_alignments_min=bs.get("run_alignments_min"),
+                    extreme_code_words_reached=bs.get("extremes"))
         evs = core.read_ndjson(trace)
         small = [e for e in evs if e["e"] != "table" and len(e["in"]) <= 12][:2]
         for e in small:
